@@ -60,7 +60,7 @@ Print Assumptions C06_quote_case_ok.
 (* the hypotheses are inhabited by non-trivial data: a query part with every separator,
    a space, '%' and a non-ASCII character (identity NFC oracle) *)
 Definition id_oracles : oracles :=
-  mkOracles (fun s => s) (fun s => MOk s) (fun s => MOk s) (fun _ => MOk false) (fun _ => MOk V6OSError).
+  mkOracles (fun s => s) (fun s => MOk s) (fun s => MOk s) (fun _ => MOk false) (fun _ => MOk V6OSError) (fun _ => MOk None).
 Example C06_ex_quote :
   quote_full gen_tables id_oracles CQuery (Tx "k;x=&+ %" ++ [233])
     = Tx "k%3Bx%3D%26%2B%20%25%C3%A9"
@@ -118,7 +118,7 @@ Proof. vm_compute. split; reflexivity. Qed.
 
 (* TOTALITY (model): URL(text) returns a URL or raises URLParseError, for every text, all tables
    and all codec answers (inet_pton's failures are caught in parse_host, so that oracle answers
-   rather than raises; MOut = int() of a non-ASCII port string, which the model does not cover) *)
+   rather than raises; int() of a non-ASCII port string is an oracle answering Some z / None) *)
 Theorem C06_total : forall T O, oracle_total O -> forall s, only_parse_error (url_init T O s).
 Proof. exact url_init_total. Qed.
 Print Assumptions C06_total.
